@@ -187,6 +187,55 @@ def run_container(fam, kind, rng, rec, ci, arm, count):
                         None))
             ops.append(('ior', lambda c: c.__ior__(list(more)), prefixes,
                         None))
+    # operations that allocate only through the loading of ghost nodes
+    # (stored containers): deletes and reads
+    if stored[0] and base_keys:
+        def minus(k):
+            return [x for x in before
+                    if (x[0] if is_mapping else x) != k]
+        dk = []
+        if w0 is not None and w0.leaf_keys:
+            dk += [lk[0] for lk in w0.leaf_keys[1:3]]          # leaf minima
+            dk += [lk[0] for lk in w0.leaf_keys if len(lk) == 1][:2]
+            dk += [w0.leaf_keys[0][0], w0.leaf_keys[-1][-1]]
+        else:
+            dk += [base_keys[0]]
+        for k in list(dict.fromkeys(dk))[:5]:
+            if is_mapping:
+                f_ = lambda c, k=k: c.__delitem__(k)
+            else:
+                f_ = lambda c, k=k: c.remove(k)
+            f_.deleted_key = k
+            ops.append(('delete', f_, [before, minus(k)], None))
+        kmin = (before[0][0] if is_mapping else before[0])
+        kmax = (before[-1][0] if is_mapping else before[-1])
+        if is_mapping:
+            f_ = lambda c: c.pop(kmax)
+            f_.deleted_key = kmax
+            ops.append(('pop', f_, [before, minus(kmax)], None))
+            f_ = lambda c: c.popitem()
+            f_.deleted_key = kmin
+            ops.append(('popitem', f_, [before, minus(kmin)], None))
+        sk_ = sort_keys(list(base_keys))
+        a_, b_ = sk_[len(sk_) // 3], sk_[(2 * len(sk_)) // 3]
+        reads = [('read:keys', lambda c: [x for x in c.keys()]),
+                 ('read:range', lambda c: [x for x in c.keys(a_, b_)]),
+                 ('read:range-excl', lambda c: [x for x in c.keys(
+                     None, None, True, True)]),
+                 ('read:len', lambda c: len(c)),
+                 ('read:contains', lambda c: (kmax in c, a_ in c)),
+                 ('read:minmax', lambda c: (c.minKey(a_), c.maxKey(b_))),
+                 ('read:iter', lambda c: [x for x in c])]
+        if is_tree:
+            reads.append(('read:index', lambda c: (c.keys()[-1],
+                                                   c.keys()[0],
+                                                   len(c.keys(a_)))))
+        if is_mapping:
+            reads.append(('read:items', lambda c: [x for x in c.items(
+                a_, None, True)]))
+            reads.append(('read:get', lambda c: (c.get(kmax), c[kmin])))
+        for nm_, fn_ in reads:
+            ops.append((nm_, fn_, [before], None))
     # module-level functions: the container is only an operand
     okeys = rng.sample(uni, min(len(uni), rng.randint(1, 10)))
     okind = rng.choice(setops.CONTAINER_KINDS)
@@ -319,7 +368,13 @@ def run_container(fam, kind, rng, rec, ci, arm, count):
                     out = type(e).__name__
                     del e
             finally:
-                arm(0)
+                try:
+                    arm(0)
+                except SystemError:
+                    # the operation returned normally but left its error
+                    # pending: the next C call trips over it
+                    arm(0)
+                    out = 'returned-with-error-pending'
             rec.evaluations += 1
             rec.ev('failures-injected')
             rec.ev('fault:' + name)
@@ -355,6 +410,34 @@ def run_container(fam, kind, rng, rec, ci, arm, count):
                 # "completed change" in a sound tree; the next insert splits)
                 errs, wa = hist.structural_checks(c, is_mapping, sizes=False)
                 if errs:
+                    # F38: the key was the only one of its leaf; the emptied
+                    # leaf has to be unlinked through its LEFT neighbour,
+                    # whose (ghost) nodes could not be loaded: the error is
+                    # reported, but the leaf is already empty and stays
+                    # linked
+                    dk_ = getattr(fn, 'deleted_key', None)
+                    solo = (dk_ is not None and w0 is not None and any(
+                        len(lk) == 1 and eq(lk[0], dk_)
+                        for lk in w0.leaf_keys))
+                    try:
+                        # (iteration follows the damaged chain: ask by key)
+                        others = [(x[0] if is_mapping else x)
+                                  for x in allowed[-1]]
+                        gone = dk_ not in c and all(k_ in c for k_ in others)
+                    except Exception:
+                        gone = False
+                    if stored[0] and solo and gone and out == 'MemoryError' \
+                            and all(('Bucket length < 1' in e[1] or
+                                     'next pointer' in e[1] or
+                                     'empty leaf' in e[1] or
+                                     'empty interior child' in e[1] or
+                                     'leaf chain differs' in e[1])
+                                    for e in errs):
+                        d['finding'] = 'F38'
+                    else:
+                        d['why_not_f38'] = brief(dict(
+                            stored=stored[0], solo=solo, gone=gone, out=out,
+                            dk=dk_, errs=[e[1][:40] for e in errs]), 400)
                     rec.violation('container-damaged-after-allocation-'
                                   'failure', errors=errs[:3], **d)
                     del c
